@@ -28,7 +28,7 @@ class Prop(SeqProp):
     rule = ("int_2_roman/roman_2_int on all of 1..3999 (exhaustive, every run); arg_sort on random key lists with ties in both "
             "directions; sub_seq/search_sub_seq/compare_pos_in_iterables on sequences over a 2-3 letter alphabet (thorough: all "
             "pairs up to length 4/5, exhaustive); Batcher/BatcherIter on all (length<=12, batch<=7) pairs plus range objects of "
-            "length 2**53±1, 2**62, 2**63-1; tuple inputs in lock-step; non-trivial = every case (each has a distinct input)")
+            "length 2**53±1, 2**62, 2**63-1; tuple inputs in lock-step, BatcherIter on tuples of different lengths (model: batcherIterPair); non-trivial = every case (each has a distinct input)")
     trusted_base = ["Lean 4.33.0 kernel (roman theorems by `decide +kernel` over the whole domain 1..3999)",
                     "axioms: propext, Classical.choice, Quot.sound (audited per theorem)",
                     "hand-written model Model/Generic.lean tied to generic.py by this correspondence run",
@@ -152,11 +152,15 @@ class Prop(SeqProp):
                 elif k == "batchnew":
                     lens = [int(x) for x in w[2:]]
                     data = tuple(list(range(n)) for n in lens)
+                    # BatcherIter accepts members of different length but rejects a non-positive batch size like Batcher does
+                    try:
+                        g.BatcherIter(data, int(w[1])); it_ok = True
+                    except ValueError:
+                        it_ok = False
+                    if it_ok != (int(w[1]) > 0):
+                        out.append("batcheriter-ctor-mismatch"); continue
                     g.Batcher(data, int(w[1]))
-                    if int(w[1]) <= 0:
-                        out.append("ok")
-                    else:
-                        g.BatcherIter(data, int(w[1])); out.append("ok")
+                    out.append("ok")
                 elif k == "batchiter2":
                     j = w.index("|")
                     xs, ys = [int(x) for x in w[2:j]], [int(x) for x in w[j + 1:]]
